@@ -45,6 +45,9 @@ type Case struct {
 	// (>= 3 lease periods). Whatever the finished tenure still sends to the storage is recorded.
 	Cont  string `json:"cont,omitempty"`
 	ContU int    `json:"cont_u,omitempty"`
+	// scenario (vi): race_before, then the SAME Locker is locked again with its Create held in flight
+	// while the parked renewal of the finished tenure reaches the storage
+	Relock bool `json:"relock,omitempty"`
 	Jit   uint64 `json:"jit"`
 }
 
@@ -57,6 +60,7 @@ type outcome struct {
 	lateRelease bool
 	acquired2   bool
 	contFail    bool
+	hardOdd     []string
 	dl, ep      int64
 	k           int64
 	premise     bool
@@ -119,6 +123,7 @@ func runScenario(cs Case) (o *outcome) {
 		c.mu.Lock()
 		o.evs = append([]event(nil), c.evs...)
 		o.contCAS, o.blackholed, o.renewals = c.contCAS, c.blackholed, c.holderCAS
+		o.hardOdd = append([]string(nil), c.hardOdd...)
 		for _, s := range c.oddities {
 			if strings.HasPrefix(s, "contender") && strings.Contains(s, "Delete") {
 				o.noiseOdd++
@@ -203,6 +208,48 @@ func runScenario(cs Case) (o *outcome) {
 		}
 		c.mark(kUnlock)
 		holder.Unlock()
+		if cs.Relock {
+			// (vi) the same Locker again: its Create is held in flight (lckCntr is 1 already) while the
+			// parked renewal of the finished tenure reaches the storage
+			c.startPhase2()
+			got2 := make(chan bool, 1)
+			ctx2, cancel2 := context.WithTimeout(ctx, 2*ttl+releaseMargin)
+			defer cancel2()
+			wg.Add(1)
+			go func() {
+				defer wg.Done()
+				ok := false
+				func() {
+					defer func() { recover() }()
+					ok = holder.LockWithCtx(ctx2) == nil
+				}()
+				got2 <- ok
+			}()
+			select {
+			case <-c.createParked:
+			case <-time.After(releaseMargin):
+				o.contFail = true
+			}
+			close(c.release)
+			time.Sleep(ttl / 4)
+			close(c.createRelease)
+			select {
+			case ok := <-got2:
+				if ok {
+					time.Sleep(ttl / 4)
+					func() {
+						defer func() { recover() }()
+						holder.Unlock()
+					}()
+				} else {
+					o.contFail = true
+				}
+			case <-time.After(2*ttl + 2*releaseMargin):
+				o.contFail = true
+			}
+			time.Sleep(2 * ttl)
+			break
+		}
 		if cs.Cont == "" {
 			close(c.release)
 			time.Sleep(3*ttl + ttl/4)
@@ -476,6 +523,10 @@ func runWithPolicy(cs Case, tl *tally) *outcome {
 	for attempt := 1; attempt <= 3; attempt++ {
 		o := runScenario(cs)
 		analyse(o)
+		if o.fatal == "" && len(o.hardOdd) > 0 {
+			// cannot be caused by any delay: reported at once
+			return o
+		}
 		tl.mu.Lock()
 		tl.attempts++
 		tl.mu.Unlock()
@@ -499,6 +550,9 @@ func runWithPolicy(cs Case, tl *tally) *outcome {
 			}
 			if o.failCode == 4 && o.premise {
 				// the lease lapsed although the measured timing met the premise of lease_kept
+				return o
+			}
+			if len(o.hardOdd) > 0 {
 				return o
 			}
 			if o.failCode == 6 {
@@ -527,6 +581,20 @@ func runWithPolicy(cs Case, tl *tally) *outcome {
 		return nil
 	}
 	return last
+}
+
+// aroundEnd renders the last events of a run
+func aroundEnd(o *outcome) []string {
+	lo := len(o.evs) - 14
+	if lo < 0 {
+		lo = 0
+	}
+	var out []string
+	for i := lo; i < len(o.evs); i++ {
+		e := o.evs[i]
+		out = append(out, fmt.Sprintf("%d: %.3fms %s -> %s", i, float64(e.t)/1e6, coqLabel(e), e.res))
+	}
+	return out
 }
 
 // around renders the events next to the first failing one
@@ -683,6 +751,8 @@ func generate(seed uint64, thorough bool) []Case {
 				}
 				add(Case{TTLms: ttl, Acq: acq(), End: x.pos, EndK: r.Range(1, 3), Cont: x.cont, ContU: r.Range(72, 96)})
 			}
+			// (vi) like (iv) "before", then the same Locker is locked again, its Create in flight
+			add(Case{TTLms: ttl, Acq: acq(), End: "race_before", EndK: r.Range(1, 2), Relock: true})
 		}
 	}
 	return cases
@@ -736,6 +806,9 @@ func main() {
 			s.DirectViolation(cs.ID, o.fatal, nil)
 			continue
 		}
+		for _, odd := range o.hardOdd {
+			s.DirectViolation(cs.ID, "storage call outside any operation: "+odd, map[string]any{"events_around_the_end": aroundEnd(o)})
+		}
 		for _, odd := range o.oddities {
 			s.DirectViolation(cs.ID, "unexpected storage interaction: "+odd, nil)
 		}
@@ -776,6 +849,9 @@ func main() {
 		}
 		if cs.Cont != "" {
 			s.Count("new-holder-after-unlock:" + cs.End + "/" + cs.Cont)
+		}
+		if cs.Relock {
+			s.Count("same-locker-relocked-after-unlock")
 		}
 		periods := cs.HoldU / 24
 		switch {
